@@ -202,6 +202,7 @@ class DirectCollocation(SamplingMethod):
         for k in range(self.N):
             dt = dts[k]
             p = self.get_p_sys(stage,k,include_signals=False)
+            self.add_coupling_constraints(stage, opti, k)
             for i in range(self.M):
                 for j in range(self.degree):
                     Pidot_j = mtimes(self.Xc[k][i],self.C[:,j])/ dt
